@@ -15,7 +15,6 @@ import (
 	"time"
 
 	"github.com/juev/hledger-lsp/internal/analyzer"
-	"github.com/juev/hledger-lsp/internal/parser"
 	"github.com/juev/hledger-lsp/internal/server"
 	"go.lsp.dev/protocol"
 )
@@ -211,7 +210,7 @@ func genC02Sessions(c *Ctx) {
 			}
 			cur = next
 			text := c02RenderJournal(c, cur)
-			j, _ := parser.Parse(text)
+			j, _ := hxParse(text)
 			txs := []J{}
 			for _, t := range j.Transactions {
 				txs = append(txs, txJ(t))
